@@ -147,7 +147,7 @@ def case_export(run, i):
         # file-level path through the sub-commands
         segf = os.path.join(d, "SampleA.cns")
         _write_tab(segf, cols)
-        sex = "female" if female else "male"
+        sex = ("f", "x", "female", "Female")[(i // 4) % 4] if female else ("m", "y", "male", "Male")[(i // 4) % 4]
         common = ["--ploidy", str(ploidy), "-x", sex] + (["-y"] if male_ref else []) + (["--diploid-parx-genome", par] if par else [])
         # plumbing of the options into export_bed / export_vcf (the function monitors judge the calls themselves)
         from ..monitors import cli_plumb
